@@ -3225,6 +3225,13 @@ def _mk_for(it, body):
         c, v = _opt_body(f)
         inner = rewrite(body, lambda n: v if n == old else None)
         return _mk_for(base, inner if c is None else _mk_if(c, inner, ("lit", "()")))
+    if it[0] == "call" and it[1] == "Iterator::flat_map" and len(it[2]) == 2 and it[2][1][0] == "closure" and it[2][1][2] == 1:
+        # for y in xs.flat_map(|x| ys(x)) { body }  ==  for x in xs { for y in ys(x) { body } }
+        base, clo = it[2]
+        inner_it = _apply(clo, ("elem", base))
+        old = ("elem", it)
+        el = ("elem", inner_it)
+        return _mk_for(base, _mk_for(inner_it, rewrite(body, lambda n: el if n == old else None)))
     return ("for", it, body)
 
 
